@@ -58,7 +58,7 @@ func runSeeds(prop, repo, verif string) seedSummary {
 	}
 	results := make([]seedResult, len(files))
 	var wg sync.WaitGroup
-	sem := make(chan struct{}, 6)
+	sem := make(chan struct{}, 10)
 	for i, f := range files {
 		wg.Add(1)
 		go func(i int, f string) {
@@ -134,7 +134,15 @@ func runSeed(prop, repo, verif, patch, expect string) seedResult {
 	tmp.Close()
 	defer os.Remove(tmp.Name())
 	exe, _ := os.Executable()
-	c2 := exec.Command(exe, "-prop", prop, "-tier", "quick", "-repo", dir, "-verif", verif, "-noevidence", "-json-out", tmp.Name())
+	args := []string{"-prop", prop, "-tier", "quick", "-repo", dir, "-verif", verif, "-noevidence", "-json-out", tmp.Name()}
+	// A patch that is expected to FIRE is checked on the plain view only: the helper-inlined view search can only turn a
+	// failure into a pass, costs about a CPU-minute per failing run, and with some 900 fire patches made the thorough tier
+	// take hours.  BCHVERIF_SEEDS_FULL=1 restores the full check for them (every fire patch was verified that way when it
+	// was added).  Patches expected to stay silent always get the full check.
+	if !strings.HasPrefix(res.Expect, "silent") && os.Getenv("BCHVERIF_SEEDS_FULL") == "" {
+		args = append(args, "-no-inline")
+	}
+	c2 := exec.Command(exe, args...)
 	out, _ := c2.CombinedOutput()
 	var sr subResult
 	jb, _ := os.ReadFile(tmp.Name())
